@@ -160,6 +160,12 @@ def tasks(tier, seed, selftest=False):
     if not q:
         for cube in common.cubes(24, 4):
             T.append({"prop": PROP, "family": "U3", "label": "U3/cas-unit", "timebox": 600, "seed": seed, "cube": cube, "params": {"mode": "cas"}})
+    # the recorded open finding F-C01-scc-nested (known_findings.txt): its witness class is re-decided on every run, so
+    # that the check reports "KNOWN-FINDING" while the defect exists and nothing once it is gone
+    from engine.ref import parse_bnet
+    wit = "a, (!a & b) | (a & !b)\nb, (!a & !b) | (a & b)\nc, (c & d) | (c & a)\nd, (!c & d)\n"
+    T.append({"prop": PROP, "family": "B22", "label": "B22/sccd+allseeds/known-finding-witness", "timebox": 20, "seed": seed, "max_classes": 2,
+              "start_at": {"tables": parse_bnet(wit)[1], "hist": {}}, "params": {"skeleton": ["sccd", "allseeds"]}})
     # published models (5-321 variables): after each complete strategy, z3 decides over all states that the reported
     # fixed-point attractors are exactly the fixed points of the model; every minimal trap space carries exactly one seed,
     # seeds lie in their node's space (checks/c18_models.py)
